@@ -106,6 +106,6 @@ def main():
         del man["not_applicable"]
     json.dump(man, open(os.path.join(HERE, "MANIFEST.json"), "w"), indent=1)
 
-HOOK_COMMITS = []
+HOOK_COMMITS = ["36a1ba6"]
 if __name__ == "__main__":
     main()
